@@ -8,7 +8,7 @@ from ..cfg import NORMAL, Node, handler_classes
 from ..core import Ctx
 from ..flow import names_in
 from ..model import AnalysisError, FunctionInfo, norm_text
-from .common import (cleanup_in_reraising_handler, branch_nodes, edge_target, escaping_after, handler_always_raises, handler_exits, handler_key,
+from .common import (owner_tops, cleanup_in_reraising_handler, branch_nodes, edge_target, escaping_after, handler_always_raises, handler_exits, handler_key,
                      handler_nodes, hint_write_nodes, hint_writers, in_handler, is_const, kwarg,
                      normal_continuation, reachable_from)
 
@@ -373,7 +373,8 @@ def commit_path_functions(ctx: Ctx) -> List[FunctionInfo]:
         top = f
         while top.parent is not None:
             top = top.parent
-        if top.module.short in COMMIT_PATH_MODULES and top.name not in POST_COMMIT:
+        owners = owner_tops(ctx, f) or [top]
+        if top.module.short in COMMIT_PATH_MODULES and not all(o.name in POST_COMMIT for o in owners):
             out.append(f)
     return sorted(out, key=lambda x: x.qname)
 
@@ -398,6 +399,8 @@ def r5(ctx: Ctx) -> None:
     if len(fns) < 15:
         raise AnalysisError(f"commit path has only {len(fns)} functions - call graph broken")
     for f in fns:
+        if not ctx.prog.is_known(f):
+            continue  # a helper introduced later: its handlers are judged where it is inlined (in its callers)
         for hn in handler_nodes(ctx, f):
             if hn.id not in ctx.cfg(f).reachable():
                 continue
@@ -408,6 +411,9 @@ def r5(ctx: Ctx) -> None:
                 continue
             k = swallow_allow_key(ctx, f, hn)
             reason = SWALLOW_OK.get(k)
+            if reason is None:
+                for o in owner_tops(ctx, f):
+                    reason = reason or SWALLOW_OK.get((o.qname, k[1]))
             if reason is None and cleanup_in_reraising_handler(ctx, f, hn):
                 reason = "best-effort cleanup nested in a handler that re-raises the original error on every path"
             ctx.ob("C04.R5", f, handler_key(ctx, f, hn), hn, reason is not None,
